@@ -440,7 +440,7 @@ Lemma children_loop_S f st node_created count0 kids :
       do st2 <- require_next st1 ;;
       do r <- comma_loop L f st2 kids1 ;;
       let '(kids2, st3) := r in
-      if negb node_created && cur_is st3 RPAREN then
+      if (ro_blank_after_comma ro || negb node_created) && cur_is st3 RPAREN then
         let '(cs, st4) := pull_comments st3 in
         children_loop f st4 true false (kids2 ++ [blank_node L cs])
       else children_loop f st3 node_created false kids2
@@ -536,7 +536,7 @@ Proof.
     destruct (wtoks_head k Hk) as [s1 [q1 [rest1 [Ew Hcur]]]].
     rewrite Ew. simpl app. rewrite require_next_T. cbn [bind].
     destruct (Hcur e (n + 1) false seen m (rest1 ++ flat_map (wtoks false) ks ++ T [RPAREN] false :: T s q :: rest)) as [C1 [C2 [C3 C4]]].
-    rewrite (comma_loop_exit F _ _ _ _ _ _ _ _ C1). cbn [bind negb andb].
+    rewrite (comma_loop_exit F _ _ _ _ _ _ _ _ C1). cbn [bind]. rewrite C2, andb_false_r.
     (* the child *)
     destruct (kids_tail_head ks (T s q :: rest)) as [c [rest2 [Etl Hc]]].
     change (St s1 (rest1 ++ flat_map (wtoks false) ks ++ T [RPAREN] false :: T s q :: rest) e (n + 1) false seen m)
